@@ -412,6 +412,44 @@ func c14Run(rt *rapid.T, p c14Plan, seed string) (m *lm, log []string, nontrivia
 	return m, log, nontrivial, ""
 }
 
+// c14ReplayRun: rebuild the source from the operation log, stream, apply the recorded corruption, load.
+func c14ReplayRun(p c14Plan, seed string, ops []sim.Op) (string, string) {
+	cfg := lmConfig{Nodes: max(1, p.Nodes), Users: 4, Rogue: p.Rogue, BoundaryAmt: true}
+	m, err := lmNew(nil, cfg, seed)
+	if err != nil {
+		return "", ""
+	}
+	defer m.w.Close()
+	for _, op := range ops {
+		m.w.Apply(op)
+	}
+	m.observe("replayed source")
+	S := m.snaps[0]
+	stream, err := c14Collect(m.w.Nodes[0].Book)
+	if err != nil {
+		return "stream-stuck", err.Error()
+	}
+	streamed := map[ref.Hash]int{}
+	for _, v := range stream {
+		streamed[v.Hash]++
+	}
+	for h := range S.Live {
+		if streamed[h] != 1 {
+			return "stream-incomplete", fmt.Sprintf("the peer's stream contains live vertex %s %d times", short(h), streamed[h])
+		}
+	}
+	if p.Corrupt == "" && !p.Truncated {
+		tgt, cause, inc := c14Load(m, stream, false, "replay-target")
+		if inc != "" {
+			return "", ""
+		}
+		if !tgt.Book.DagLoaded() {
+			return "clean-stream-not-loaded", fmt.Sprintf("well-formed stream of %d vertices not loaded: %v", len(stream), cause)
+		}
+	}
+	return "", ""
+}
+
 func idxHash(b []byte) ref.Hash {
 	var h ref.Hash
 	copy(h[:], b)
